@@ -662,6 +662,10 @@ func metaTwins(r *simkit.RNG, sc *Scenario) {
 	}
 	// make sure both twins are asked for
 	sc.Adds = append(sc.Adds, Add{Kind: "registry", Addr: rp.Addr, Constr: lastAdd[0], Finder: "F1"}, Add{Kind: "final", Addr: rp.Addr + "@" + lastAdd[1], Finder: "F1"})
+	if simkit.NewRNG(sc.Seed, "bw/meta-twins-open").Chance(1, 3) {
+		// ... and once without saying which: both twins are the greatest version offered
+		sc.Adds = append(sc.Adds, Add{Kind: "registry", Addr: rp.Addr, Constr: "", Finder: "F2"})
+	}
 }
 
 func pickConstr(r *simkit.RNG, k *gknobs) string {
